@@ -131,13 +131,14 @@ structure WF (t : Timer δ ε) : Prop where
   own : ∀ e ∈ t.pending, ∀ sid, e.sendid = some sid → lookupId sid t.delayed = some e.seq
   gseq : ∀ sid g, lookupId sid t.delayed = some g → g < t.nextSeq
   gid : ∀ sid g, lookupId sid t.delayed = some g → ∀ e ∈ t.pending, e.seq = g → e.sendid = some sid
-  dead : t.alive = false → t.pending = []
+  dead : t.stopped = true → t.pending = []
+  sdead : t.stopped = true → t.alive = false
 
 theorem WF.init (d : δ) : WF (Timer.init d : Timer δ ε) := by
   constructor <;> simp [Timer.init, lookupId]
 
 theorem WF.tick {t : Timer δ ε} (h : WF t) (t' : Nat) : WF (t.tick t') := by
-  obtain ⟨h1, h2, h3, h4, h5, h6, h7, h8, h9, h10, h11, h12, h13⟩ := h
+  obtain ⟨h1, h2, h3, h4, h5, h6, h7, h8, h9, h10, h11, h12, h13, h14⟩ := h
   constructor <;> simp only [Timer.tick] <;> try assumption
   intro d hd
   have := h5 d hd
@@ -147,12 +148,21 @@ theorem WF.assign {t : Timer δ ε} (h : WF t) (f : δ → δ) : WF (t.assign f)
   unfold Timer.assign
   split
   · exact h
-  · obtain ⟨h1, h2, h3, h4, h5, h6, h7, h8, h9, h10, h11, h12, h13⟩ := h
+  · obtain ⟨h1, h2, h3, h4, h5, h6, h7, h8, h9, h10, h11, h12, h13, h14⟩ := h
     constructor <;> assumption
 
 theorem WF.terminate {t : Timer δ ε} (h : WF t) : WF t.terminate := by
-  obtain ⟨h1, h2, h3, h4, h5, h6, h7, h8, h9, h10, h11, h12, h13⟩ := h
+  obtain ⟨h1, h2, h3, h4, h5, h6, h7, h8, h9, h10, h11, h12, h13, h14⟩ := h
   constructor <;> simp only [Timer.terminate] <;> first | assumption | simp
+
+theorem WF.stop {t : Timer δ ε} (h : WF t) : WF t.stop := by
+  unfold Timer.stop
+  split
+  · exact h
+  · rename_i ha
+    obtain ⟨h1, h2, h3, h4, h5, h6, h7, h8, h9, h10, h11, h12, h13, h14⟩ := h
+    constructor <;> simp only <;> first | assumption | simp
+    simpa using ha
 
 theorem WF.cancel {t : Timer δ ε} (h : WF t) (id : SendId) : WF (t.cancel id) := by
   unfold Timer.cancel
@@ -161,7 +171,7 @@ theorem WF.cancel {t : Timer δ ε} (h : WF t) (id : SendId) : WF (t.cancel id) 
   · split
     · exact h
     · rename_i g hg
-      obtain ⟨h1, h2, h3, h4, h5, h6, h7, h8, h9, h10, h11, h12, h13⟩ := h
+      obtain ⟨h1, h2, h3, h4, h5, h6, h7, h8, h9, h10, h11, h12, h13, h14⟩ := h
       constructor <;> simp only
       · exact h1.filter _
       · exact h2.filter _
@@ -183,11 +193,12 @@ theorem WF.cancel {t : Timer δ ε} (h : WF t) (id : SendId) : WF (t.cancel id) 
       · intro sid g' hl; exact h11 sid g' (lookupId_removeId_some hl).2
       · intro sid g' hl e he; exact h12 sid g' (lookupId_removeId_some hl).2 e (mem_dropGuard.1 he).1
       · intro ha; simp [h13 ha, dropGuard]
+      · exact h14
 
 /-- the closure of the head entry, under the invariant: it removes its own guard only -/
 theorem WF.fireOne {t : Timer δ ε} (h : WF t) {e : Entry ε} {rest : List (Entry ε)}
     (hp : t.pending = e :: rest) (hdue : e.due ≤ t.now) : WF (fireOne t e rest) := by
-  obtain ⟨h1, h2, h3, h4, h5, h6, h7, h8, h9, h10, h11, h12, h13⟩ := h
+  obtain ⟨h1, h2, h3, h4, h5, h6, h7, h8, h9, h10, h11, h12, h13, h14⟩ := h
   rw [hp] at h1 h2 h3 h6 h9 h10 h12
   have s1 := List.pairwise_cons.1 h1
   have s2 := List.pairwise_cons.1 h2
@@ -199,7 +210,7 @@ theorem WF.fireOne {t : Timer δ ε} (h : WF t) {e : Entry ε} {rest : List (Ent
       (∀ x ∈ p', x ∈ rest) → p'.Pairwise Entry.lt → p'.Pairwise (fun a b => a.seq ≠ b.seq) →
       (∀ x ∈ p', ∀ sid, x.sendid = some sid → lookupId sid dl = some x.seq) →
       (∀ sid g, lookupId sid dl = some g → lookupId sid t.delayed = some g) →
-      (t.alive = false → p' = []) →
+      (t.stopped = true → p' = []) →
       WF ({ t with pending := p', delayed := dl, log := t.log ++ [⟨t.now, true, e⟩] } : Timer δ ε) := by
     intro p' dl hsub hs hn hown hdl hdead
     constructor <;> simp only
@@ -236,7 +247,8 @@ theorem WF.fireOne {t : Timer δ ε} (h : WF t) {e : Entry ε} {rest : List (Ent
     · intro sid g hl; exact h11 sid g (hdl sid g hl)
     · intro sid g hl x hx; exact h12 sid g (hdl sid g hl) x (List.mem_cons_of_mem _ (hsub x hx))
     · exact hdead
-  have hdeadrest : t.alive = false → rest = [] := by
+    · exact h14
+  have hdeadrest : t.stopped = true → rest = [] := by
     intro ha; have := h13 ha; rw [hp] at this; cases this
   unfold Rfsm.Timer.fireOne
   split
@@ -280,7 +292,7 @@ theorem WF.wake {t : Timer δ ε} (h : WF t) : WF t.wake := by
 
 theorem WF.send {t : Timer δ ε} (h : WF t) (id : Option SendId) (tg : Str) (delay : Int) (mk : δ → ε) :
     WF (t.send id tg delay mk) := by
-  obtain ⟨h1, h2, h3, h4, h5, h6, h7, h8, h9, h10, h11, h12, h13⟩ := h
+  obtain ⟨h1, h2, h3, h4, h5, h6, h7, h8, h9, h10, h11, h12, h13, h14⟩ := h
   unfold Timer.send
   split
   · constructor <;> assumption
@@ -329,6 +341,7 @@ theorem WF.send {t : Timer δ ε} (h : WF t) (id : Option SendId) (tg : Str) (de
     · intro sid g hl; have := h11 sid g hl; omega
     · exact h12
     · exact h13
+    · exact h14
   · -- 0 < delay: scheduled
     rename_i hz
     have hpos : 0 < delay.toNat := by omega
@@ -370,7 +383,8 @@ theorem WF.send {t : Timer δ ε} (h : WF t) (id : Option SendId) (tg : Str) (de
       · exact hown
       · exact hgs
       · exact hgi
-      · intro ha; rw [ha] at halive; exact absurd rfl halive
+      · intro hs; exact absurd (h14 hs) halive
+      · exact h14
     cases id with
     | none =>
       simp only
@@ -452,6 +466,7 @@ theorem WF.step {t : Timer δ ε} (h : WF t) (op : Op δ ε) : WF (t.step op) :=
   | tick t' => exact h.tick t'
   | wake => exact h.wake
   | terminate => exact h.terminate
+  | stop => exact h.stop
 
 theorem WF.run {t : Timer δ ε} (h : WF t) (ops : List (Op δ ε)) : WF (t.run ops) := by
   induction ops generalizing t with
@@ -571,7 +586,13 @@ theorem Frame.step (t : Timer δ ε) (op : Op δ ε) : Frame t (t.step op) := by
     exact ⟨fun _ hd => Or.inl hd, fun _ he => Or.inl he, Nat.le_refl _, fun _ hd => hd, Nat.le_max_left _ _⟩
   | terminate =>
     show Frame t t.terminate
-    exact ⟨fun _ hd => Or.inl hd, fun _ he => by simp [Timer.terminate] at he, Nat.le_refl _, fun _ hd => hd, Nat.le_refl _⟩
+    exact ⟨fun _ hd => Or.inl hd, fun _ he => Or.inl he, Nat.le_refl _, fun _ hd => hd, Nat.le_refl _⟩
+  | stop =>
+    show Frame t t.stop
+    unfold Timer.stop
+    split
+    · exact Frame.refl t
+    · exact ⟨fun _ hd => Or.inl hd, fun _ he => by simp at he, Nat.le_refl _, fun _ hd => hd, Nat.le_refl _⟩
   | wake =>
     show Frame t t.wake
     unfold Timer.wake
@@ -624,11 +645,12 @@ theorem Frame.run (t : Timer δ ε) (ops : List (Op δ ε)) : Frame t (t.run ops
   | nil => exact Frame.refl t
   | cons op ops ih => exact (Frame.step t op).trans (ih _)
 
-/-- `op` neither cancels, overwrites nor discards the pending entry `e` -/
-def Safe (e : Entry ε) : Op δ ε → Prop
-  | .send (some sid) tg d _ => ¬ (0 < d ∧ tg ≠ internalTarget ∧ e.sendid = some sid)
+/-- executed in state `t`, `op` neither cancels, overwrites nor discards the pending entry `e` -/
+def Safe (t : Timer δ ε) (e : Entry ε) : Op δ ε → Prop
+  | .send (some sid) tg d _ => ¬ (t.alive = true ∧ 0 < d ∧ tg ≠ internalTarget ∧ e.sendid = some sid)
   | .cancel id => e.sendid ≠ some id
   | .terminate => False
+  | .stop => False
   | _ => True
 
 theorem fire_keeps {t : Timer δ ε} (h : WF t) {e : Entry ε} (he : e ∈ t.pending) (f : Nat) :
@@ -681,11 +703,9 @@ theorem fire_due {t : Timer δ ε} (h : WF t) {e : Entry ε} (he : e ∈ t.pendi
         · rw [fireOne_pending h hp]; simp at hf; omega
 
 theorem keep_step {t : Timer δ ε} (h : WF t) {e : Entry ε} (he : e ∈ t.pending) (op : Op δ ε)
-    (hs : Safe e op) : e ∈ (t.step op).pending ∨ Delivered (t.step op) e := by
-  have halive : t.alive = true := by
-    cases ha : t.alive with
-    | true => rfl
-    | false => have := h.dead ha; rw [this] at he; cases he
+    (hs : Safe t e op) : e ∈ (t.step op).pending ∨ Delivered (t.step op) e := by
+  have hns : ¬ t.stopped = true := by
+    intro hst; have := h.dead hst; rw [this] at he; cases he
   cases op with
   | assign f =>
     left
@@ -694,16 +714,18 @@ theorem keep_step {t : Timer δ ε} (h : WF t) {e : Entry ε} (he : e ∈ t.pend
     split <;> exact he
   | tick t' => exact Or.inl he
   | terminate => exact absurd hs (by simp [Safe])
+  | stop => exact absurd hs (by simp [Safe])
   | wake =>
     show e ∈ t.wake.pending ∨ Delivered t.wake e
     unfold Timer.wake
-    rw [if_neg (by simp [halive])]
+    rw [if_neg hns]
     exact fire_keeps h he _
   | cancel id =>
     left
     show e ∈ (t.cancel id).pending
     unfold Timer.cancel
-    rw [if_neg (by simp [halive])]
+    split
+    · exact he
     split
     · exact he
     · rename_i g hg
@@ -714,7 +736,8 @@ theorem keep_step {t : Timer δ ε} (h : WF t) {e : Entry ε} (he : e ∈ t.pend
     left
     show e ∈ (t.send id tg d mk).pending
     unfold Timer.send
-    rw [if_neg (by simp [halive])]
+    split
+    · exact he
     split
     · exact he
     split
@@ -722,7 +745,7 @@ theorem keep_step {t : Timer δ ε} (h : WF t) {e : Entry ε} (he : e ∈ t.pend
     simp only
     split
     · exact he
-    · rename_i hneg hint hz
+    · rename_i halive hneg hint hz
       have hin : e ∈ insertEntry (⟨t.now + d.toNat, t.nextSeq, id, tg, mk t.data⟩ : Entry ε) t.pending :=
         mem_insertEntry.2 (Or.inr he)
       cases id with
@@ -735,33 +758,35 @@ theorem keep_step {t : Timer δ ε} (h : WF t) {e : Entry ε} (he : e ∈ t.pend
           intro hc
           have hsid := h.gid sid old hold e he hc
           apply hs
-          refine ⟨by omega, ?_, hsid⟩
+          refine ⟨by simpa using halive, by omega, ?_, hsid⟩
           intro htg
           exact hint ⟨by omega, htg⟩
         · exact hin
 
 theorem keep_run {t : Timer δ ε} (h : WF t) {e : Entry ε} (he : e ∈ t.pending) (ops : List (Op δ ε))
-    (hs : ∀ op ∈ ops, Safe e op) : e ∈ (t.run ops).pending ∨ Delivered (t.run ops) e := by
+    (hs : ∀ op ∈ ops, ∀ t', Safe t' e op) : e ∈ (t.run ops).pending ∨ Delivered (t.run ops) e := by
   induction ops generalizing t with
   | nil => exact Or.inl he
   | cons op ops ih =>
-    rcases keep_step h he op (hs op (List.mem_cons_self ..)) with he' | ⟨d, hd, hde⟩
+    rcases keep_step h he op (hs op (List.mem_cons_self ..) t) with he' | ⟨d, hd, hde⟩
     · exact ih (h.step op) he' (fun o ho => hs o (List.mem_cons_of_mem _ ho))
     · right
       exact ⟨d, (Frame.run (t.step op) ops).mono d hd, hde⟩
 
-theorem Safe.of_harmless {e : Entry ε} {op : Op δ ε} (h : op.harmlessFor e.sendid = true) : Safe e op := by
+theorem Safe.of_harmless {e : Entry ε} {op : Op δ ε} (h : op.harmlessFor e.sendid = true) (t : Timer δ ε) :
+    Safe t e op := by
   cases op with
   | send id tg d mk =>
     cases id with
     | none => trivial
     | some sid =>
-      intro ⟨hd, _, hsid⟩
+      intro ⟨_, hd, _, hsid⟩
       simp [Op.harmlessFor, hd, hsid] at h
   | cancel id =>
     intro hc
     simp [Op.harmlessFor, hc] at h
   | terminate => simp [Op.harmlessFor] at h
+  | stop => simp [Op.harmlessFor] at h
   | assign f => trivial
   | tick t' => trivial
   | wake => trivial
